@@ -98,6 +98,27 @@ func NewUniverse(m *openfgav1.AuthorizationModel, nobj int, withInvalid bool) *U
 					}
 				}
 				if withInvalid {
+					// an unconditioned tuple where the model only allows the conditioned form (left over from a
+					// model version without the condition); a typed wildcard restriction does not make it valid
+					for _, ref := range refs {
+						if ref.GetCondition() == "" || ref.GetWildcard() != nil {
+							continue
+						}
+						plain := false
+						for _, r2 := range refs {
+							if r2.GetCondition() == "" && r2.GetType() == ref.GetType() && r2.GetRelation() == ref.GetRelation() && r2.GetWildcard() == nil {
+								plain = true
+							}
+						}
+						if plain {
+							continue
+						}
+						usr := u.Objects[ref.GetType()][0]
+						if ref.GetRelation() != "" {
+							usr += "#" + ref.GetRelation()
+						}
+						u.Cands = append(u.Cands, Cand{Key: tuple.NewTupleKey(obj, r, usr), Valid: false})
+					}
 					// a user type the relation does not list (first type of the model that is not allowed)
 					for _, t2 := range u.Types {
 						allowed := false
